@@ -17,7 +17,7 @@ package spy
 //   SendFailed(s, v)        Send returned an error (broken connection / cancelled context)
 //   Stall/Resume/Fail/Cancel(s)   faults injected by the harness
 //   Removed(s)              SubscribeSignedVAA returned (its deferred removal has run)
-//   End                     the scenario is over and everything owed has been waited for
+//   End(nsubs)              the scenario is over and everything owed has been waited for; nsubs = len(spyServer.subs)
 //   Timeout(op, ...)        bounded liveness: an operation that the specification says must complete did not
 //                           complete within the deadline; the goroutine dump of the scenario is attached
 //
@@ -532,8 +532,21 @@ func shRunScenario(w *shWorld, sc vhScenario) {
 		ok = r.sync()
 	}
 	if ok {
+		// projected state at quiescence: the number of entries in spyServer.subs (read under its own mutex)
+		n := -1
+		if !r.waitFor(func() bool {
+			if r.srv.subsMu.TryLock() {
+				n = len(r.srv.subs)
+				r.srv.subsMu.Unlock()
+				return true
+			}
+			return false
+		}, shDeadline) {
+			r.timeout("Mutex", map[string]interface{}{}, "")
+			return
+		}
 		r.mu.Lock()
-		r.emit("End", map[string]interface{}{})
+		r.emit("End", map[string]interface{}{"nsubs": n})
 		r.mu.Unlock()
 		return
 	}
